@@ -415,6 +415,35 @@ def show(e, fn=None, depth=0):
     return repr(e)
 
 
+def container_fills(fn):
+    """{block of the `Vec::new()` / `with_capacity` call that created a vector: [values pushed into it]},
+    from a site-sensitive provenance (each creation site is a distinct container)."""
+    pv = Prov(fn, copies=True, sites=True)
+    fills = {}
+    for bi, t, cal in fn.calls():
+        if cal is None or cal.adt != "std::vec::Vec" or cal.name not in ("push", "insert", "extend", "extend_from_slice", "append") or len(t["args"]) < 2:
+            continue
+        recv = pv.operand(t["args"][0])
+        if recv[0] == "call" and recv[1] in ("std::vec::Vec::new", "std::vec::Vec::with_capacity") and len(recv) == 4:
+            fills.setdefault(recv[3], []).append(pv.operand(t["args"][-1]))
+    return pv, fills
+
+
+def mentions_through_containers(expr, pred, fills, depth=0):
+    """`expr` mentions something satisfying `pred`, directly or as an element pushed into a vector
+    that `expr` mentions (site-sensitive expressions from container_fills)."""
+    if mentions(expr, pred):
+        return True
+    if depth > 3:
+        return False
+    for x in walk(expr):
+        if x[0] == "call" and len(x) == 4 and x[1] in ("std::vec::Vec::new", "std::vec::Vec::with_capacity"):
+            for v in fills.get(x[3], ()):
+                if mentions_through_containers(v, pred, fills, depth + 1):
+                    return True
+    return False
+
+
 def resolve_captures(expr, closure_fn, copies=True):
     """Replace captured-variable reads inside a closure body (`field(_, name, "{closure}")`) by
     the provenance of the parent's local of that name."""
